@@ -112,10 +112,13 @@ CLAIMS["C04"] = dict(
         "tokens consumed/error position across the four configurations over grammars x exhaustively enumerated inputs. Coq "
         "(Props/C04.v): the full verbose statement is REFUTED by a computed witness (showpeek fetches a token: recorded "
         "finding); proved for all modules/inputs/states: a cache hit replays exactly the recorded result and end position, "
-        "and every cache entry reachable in any run records an end position consistent with its result (from the C05 invariant).",
-   design="6/C04", technique="Coq refutation witness + cache-consistency invariant proof + four-configuration trace correspondence",
-   note="Partial: the general equalities (cache on = cache off; verbose = quiet up to the fetched count) are not yet theorems; "
-        "they are checked by the four-configuration sweep.")
+        "and every cache entry reachable in any run records an end position consistent with its result (from the C05 invariant). "
+        "The cache half is REFUTED in error mode too (C04_cache_refuted_in_error_mode: a result cached inside a "
+        "*_without_invalid rule is replayed outside it; recorded finding); error mode x {cache on, off} is swept as well "
+        "(grammars with invalid_ rules) and must agree wherever no *_without_invalid rule intervenes.",
+   design="6/C04", technique="Coq refutation witnesses + cache-consistency invariant proof + four-configuration trace correspondence (normal and error mode)",
+   note="Partial: the general equalities (cache on = cache off; verbose = quiet up to the fetched count) are not theorems -- "
+        "both are false of the faithful model in the two recorded situations; elsewhere they are checked by the sweeps.")
 CLAIMS["C11"] = dict(
    text="Coq theorems (Props/C11.v) over the runtime model, for every module: NAME matches a token iff kind NAME and text not "
         "in KEYWORDS; SOFT_KEYWORD iff kind NAME and text in SOFT_KEYWORDS; a quoted literal that is not also a token-kind "
@@ -146,16 +149,22 @@ CLAIMS["C15"] = dict(
    design="6/C15", technique="Coq list-level proof of the end-token scan + value-carrying K-run correspondence",
    note="The degenerate case (only layout tokens matched) is outside the statement, as in the property's quantifier.")
 CLAIMS["C02"] = dict(
-   text="Coq (Props/C02.v): for every method body satisfying the position invariant, every mark, fuel and state, the growth "
-        "loop of memoize_left_rec returns a match ending at or after the mark, leaves the cursor at the mark for a falsy "
-        "result and stores only consistent seeds; a computed example shows two growth steps and the left-nested tree. Tie: "
-        "K-gen (decorator choice incl. helper rules) and K-run with event traces through growth. On the implementation: 19 "
-        "left-recursive families (recursive reference bare/named/grouped/behind lookahead/behind nullable rule/in optional/"
-        "in loop; cycles of 2-3 rules entered at any member; helpers inside cycles) x all inputs up to length 5-6: accepted "
-        "language vs the regular language denoted, vs the right-iterative/distributed rewrite, left-nesting, termination.",
-   design="6/C02", technique="Coq invariant of the seed-growing loop + family sweeps with metamorphic rewrites and K-run correspondence",
-   note="Partial: the general statement (result = last strictly growing iterate of the reference semantics) and termination "
-        "bounds are not theorems yet.")
+   text="Coq (Props/C02.v), for ANY method body, key, mark, state: (1) invariant: the growth loop of memoize_left_rec returns "
+        "a match ending at or after the mark, leaves the cursor at the mark for a falsy result and stores only consistent "
+        "seeds; (2) C02_growth_loop_computes_the_iteration_limit / C02_decorator_returns_and_records_the_limit: for any "
+        "sequence of results r0 (the primed failure) .. rn with strictly growing end positions such that the body maps the "
+        "cached seed rk to r(k+1) and, from rn, fails or makes no progress, the loop returns exactly rn, leaves the cursor at "
+        "its end and records it -- 'the longest match obtained by repeatedly re-evaluating the alternatives with the previous "
+        "result substituted for the recursive call'; (3) C02_growth_terminates: with more fuel than positions left the loop "
+        "never runs out of fuel. Examples show the hypotheses satisfiable and two growth steps with the left-nested tree on "
+        "a real module. Tie: K-gen (decorator choice incl. helper rules) and K-run with event traces through growth. On the "
+        "implementation: left-recursive families (recursive reference bare/named/grouped/behind lookahead/behind nullable "
+        "rule/in optional/in loop; cycles of 2-3 rules entered at any member, one member also self-recursive; helpers inside "
+        "cycles) x all inputs up to length 5-6: accepted language vs the regular language denoted, vs the right-iterative/"
+        "distributed rewrite, left-nesting, termination.",
+   design="6/C02", technique="Coq theorems on the seed-growing loop (invariant, iteration limit, termination) + family sweeps with metamorphic rewrites and K-run correspondence",
+   note="Partial: that the body of a generated rule meets the step hypotheses w.r.t. a reference semantics of left recursion "
+        "is not a theorem (no such reference semantics is defined); it is covered by the family sweeps.")
 CLAIMS["C08"] = dict(
    text="Closed-instance property decided by evaluation plus one generic Coq lemma (Props/C08.v): if one regeneration step "
         "maps a text to itself then every later stage equals it. Re-established on every run: (a) instance lemma by "
@@ -197,13 +206,15 @@ CLAIMS["C19"] = dict(
         "proved for all grammars (with left recursion it is not closed, which is outside the property's class).")
 CLAIMS["C07"] = dict(
    text="Partial (clauses ii-iv on the error-construction path this repository owns; clause i -- refuses exactly what the "
-        "host interpreter refuses -- is not covered, see DESIGN.md section 11). Coq (Props/C07.v, instances of the C14 line "
+        "host interpreter refuses -- cannot be a theorem, see DESIGN.md section 11; it is searched: every explored text that "
+        "the generated module accepts is also given to the host's ast.parse, incl. the doctest examples of the host's own "
+        "test_syntax.py, and a disagreement is reported with the text). Coq (Props/C07.v, instances of the C14 line "
         "theorems): for every raw stream obeying tokenize's contract, every history and every line range touched by pulled "
         "tokens, fetching the error text does not raise and yields the real lines, identically with and without a path. On "
         "the implementation: token-level deletion/insertion/replacement/duplication edits of the test sources (incl. blank "
-        "lines and multi-line tokens inside the range) through parse_string and parse_file: never an internal exception, "
-        "line/column inside the text, both entry points identical.",
-   design="6/C07", technique="Coq line-table theorems (instances of C14) + token-edit sweep through both entry points",
+        "lines and multi-line tokens inside the range) through the generated module's own parse_string and parse_file: never "
+        "an internal exception, line/column inside the text, both entry points identical.",
+   design="6/C07", technique="Coq line-table theorems (instances of C14) + token-edit sweep through both entry points + host-agreement search",
    note="Known findings: backslash-only continuation line (KeyError, string mode); bytes/str literal concatenation (TypeError).")
 CLAIMS["C09"] = dict(
    text="Coq theorem C09_print_then_read (Props/C09.v), for ALL grammars of the readable shapes (every operator at any "
